@@ -15,6 +15,7 @@ type Term = string
 
 // Engine holds the loaded program and contracts.
 type Engine struct {
+	entrySet map[*ssa.Function]bool // builtin table entries (tableEntryKeeps)
 	pkgs     []*packages.Package
 	prog     *ssa.Program
 	fset     *token.FileSet
@@ -506,7 +507,7 @@ func (vc *VC) fieldVar(st types.Type, i int) string {
 		vc.rangeSeen[name] = true
 		if n, ok := types.Unalias(st).(*types.Named); ok && n.Obj().Pkg() != nil {
 			for _, im := range vc.eng.cs.Immutable {
-				if im.PkgPath == n.Obj().Pkg().Path() && im.Sel == n.Obj().Name()+"."+u.Field(i).Name() {
+				if im.PkgPath == n.Obj().Pkg().Path() && im.Sel == n.Obj().Name()+"."+u.Field(i).Name() && !im.AuditOnly {
 					vc.immutable[name] = true
 					vc.note("field " + im.Sel + " is immutable after construction (frame obligation immutable(" + im.Sel + "), " + im.Pos + ")")
 				}
